@@ -404,7 +404,7 @@ pub fn run(ctx: &Ctx) -> i32 {
     let mut sched_notes = vec![];
     let configs: Vec<(usize, usize, &str, u64)> = match ctx.tier {
         Tier::Quick => vec![(2, 1, "inf", 5000), (3, 1, "0", 5000), (3, 1, "1", 5000), (2, 2, "1", 5000)],
-        Tier::Thorough => vec![(2, 1, "inf", 100000), (2, 2, "inf", 100000), (3, 1, "inf", 100000), (3, 2, "0", 100000), (3, 2, "1", 100000), (3, 2, "2", 100000)],
+        Tier::Thorough => vec![(2, 1, "inf", 100000), (2, 2, "inf", 100000), (3, 1, "inf", 100000), (3, 2, "0", 100000), (3, 2, "1", 100000), (3, 2, "2", 100000), (4, 1, "2", 100000), (2, 3, "2", 100000)],
     };
     for (nt, per, bound, cap) in configs {
         if let Some(v) = run_sched_child(ctx, nt, per, bound, cap) {
@@ -420,7 +420,8 @@ pub fn run(ctx: &Ctx) -> i32 {
     ctx.note("schedule_exploration", json!(sched_notes));
     // sampling complement (labelled so): the same bodies free-running on 16 OS threads
     {
-        let refs: Vec<u64> = [5usize, 6, 3].iter().map(|o| run_op(*o)).collect();
+        let fr_ops = [5usize, 6, 3, 0, 2, 8];
+        let refs: Vec<u64> = fr_ops.iter().map(|o| run_op(*o)).collect();
         let bad = std::sync::atomic::AtomicU64::new(0);
         let rounds = ctx.tier.pick(3, 20);
         for _ in 0..rounds {
@@ -429,8 +430,8 @@ pub fn run(ctx: &Ctx) -> i32 {
                     let refs = &refs;
                     let bad = &bad;
                     s.spawn(move || {
-                        let oi = t % 3;
-                        let r = catch(std::panic::AssertUnwindSafe(|| run_op([5usize, 6, 3][oi])));
+                        let oi = t % fr_ops.len();
+                        let r = catch(std::panic::AssertUnwindSafe(|| run_op(fr_ops[oi])));
                         if r.ok() != Some(refs[oi]) {
                             bad.fetch_add(1, std::sync::atomic::Ordering::Relaxed);
                         }
